@@ -97,7 +97,7 @@ DEPENDS = {           # cached view -> the environ keys it is computed from
 
 
 class OnEnvChanged(Contract):
-    props = ('C10', 'C18', 'C04')
+    props = ('C10', 'C18', 'C04', 'C15')
     file = 'ombott/request_pkg/request.py'
     qualname = 'BaseRequest._on_env_changed'
     assumptions = ('cached views live in the environ under "ombott.request.<view>"; the views computed from a key are: ' + repr(DEPENDS),
